@@ -867,7 +867,7 @@ impl<'a> Gen<'a> {
 
     fn compute(&mut self) {
         let n = *self.r.pick(&[-1i64, 0, 1, 1, 2, 2, 3, 3, 4, 5, 8, 16, 33, 64]);
-        let n = if self.r.chance(0.02) { *self.r.pick(&[200, 1000, 3000]) } else { n };
+        let n = if self.r.chance(0.02) { *self.r.pick(&[200, 1000, 3000, 3000, 4097, 9999, 10000]) } else { n };
         let n = if tiny() { n.clamp(-1, 3) } else { n };
         if self.r.chance(0.5) {
             // make sure the children inherit at least one word they can consume
@@ -1067,7 +1067,8 @@ pub fn random_case(r: &mut Rng, focus: Focus) -> VmCase {
     let len = match if tiny() { 0 } else { r.below(4) } {
         0 => 3 + r.below(8),
         1 | 2 => 10 + r.below(40),
-        _ => 50 + r.below(250),
+        // mostly up to 300 ops, now and then a long program (thousands of ops)
+        _ => if r.chance(0.04) { 300 + r.below(3000) } else { 50 + r.below(250) },
     };
     let mut g = Gen {
         r,
